@@ -388,7 +388,17 @@ func (s *transactionStore) Watch(ctx context.Context, ch chan<- configapi.Transa
 		for {
 			select {
 			case event := <-eventCh:
-				ch <- event
+				select {
+				case ch <- event:
+				case <-ctx.Done():
+					// the watcher is gone (it may have stopped reading before its context was cancelled)
+					close(ch)
+					go func() {
+						for range eventCh {
+						}
+					}()
+					return
+				}
 			case <-ctx.Done():
 				close(ch)
 				go func() {
